@@ -144,6 +144,8 @@ def new_instance(spec, fd, inputs, cache=None):
               lmax=spec.get('lmax', 2))
     if spec.get('tetrad'):
         kw['tetrad'] = spec['tetrad']
+    if spec.get('center'):
+        kw['center'] = tuple(spec['center'])
     if cache is None:
         kw.update(clear_cache_every_nbr_calc=10**9, memory_threshold_inGB=1e9)
     else:
